@@ -638,3 +638,25 @@ Definition id_len (id : bytes) : N := unle (slice id 3 3).
 Definition disjoint_ids (a b : bytes) : bool :=
   (id_off a + id_len a <=? id_off b) || (id_off b + id_len b <=? id_off a).
 
+
+(* ------------------------------------------------------------------ vocabulary of the theorem statements *)
+(* what the property asks of a heap state h that stands for the specification state sp *)
+Definition observables (bs : N) (h : heap) (sp : spec) : Prop :=
+  (forall id d, lookup id (sp_live sp) = Some d -> get h id = Ok d)
+  /\ NoDup (map fst (sp_live sp))
+  /\ ForallOrdPairs (fun a b => disjoint_ids (fst a) (fst b) = true) (sp_live sp)
+  /\ h_nobj h = spec_count sp /\ h_free h = spec_free bs sp.
+
+
+(* test objects: n bytes b, b+1, ... (mod 256) *)
+Definition ramp_nat (b : N) (k : nat) : bytes :=
+  (fix go (b : N) (k : nat) := match k with O => [] | S k' => (b mod 256) :: go (b + 1) k' end) b k.
+Definition obj (b n : N) : bytes := ramp_nat b (N.to_nat n).
+
+Definition outs_of (cap : N -> N) (bs : N) (hist : list op) : list out :=
+  let '(_, _, outs) := run cap bs (new_heap bs, fs0) hist in outs.
+Definition heap_of (cap : N -> N) (bs : N) (hist : list op) : heap :=
+  let '(h, _, _) := run cap bs (new_heap bs, fs0) hist in h.
+Definition file_of (cap : N -> N) (bs : N) (hist : list op) : fstate :=
+  let '(_, fs, _) := run cap bs (new_heap bs, fs0) hist in fs.
+
